@@ -15,6 +15,7 @@ from ..forks import Fork
 from ..ratfun import Rat
 from ..symex import (Inst, Func, Builtin, Rec, PyRaise, is_scalar, to_rat)
 from ..namodel import NA, DT, objarr
+from ..spacemodel import NotAnElement
 from ..spacemodel import (SMHooks, SMInterp, NSpace, NPSpace, NField, NElem,
                           NPElem, sym_elem, inner, flat, IU)
 from .. import posalg as PA
@@ -178,6 +179,11 @@ def builders(model):
         I, 'MatrixOperator', mat('m', (2, 3)), domain=sp((2, 3)), axis=1)
     B['MatrixOperator[2-d domain, axis=0]'] = lambda I, S: inst(
         I, 'MatrixOperator', mat('m', (3, 2)), domain=sp((2, 3)), axis=0)
+    for ax, shp in ((0, (4, 2)), (1, (4, 3)), (2, (3, 2))):
+        B['MatrixOperator[3-d domain, axis=%d]' % ax] = (
+            lambda I, S, ax=ax, shp=shp: inst(
+                I, 'MatrixOperator', mat('m', shp), domain=sp((2, 3, 2)),
+                axis=ax))
     PTS = [[0, 1, 0], [1, 2, 1]]         # index (0, 1) occurs twice
     for tag, k in (('discretized', dict(w='w', cv='w')),
                    ('unweighted', dict()),
@@ -292,6 +298,38 @@ def builders(model):
     B['expr:(s*RealPart + ImagPart)[C]'] = (
         lambda I, S: I.binop(ast.Add, I.binop(ast.Mult, Rat.var('s'), inst(
             I, 'RealPart', S['C'])), inst(I, 'ImagPart', S['C'])))
+    B['expr:complex vector * ComplexEmbedding[R]'] = (
+        lambda I, S: I.binop(ast.Mult, sym_elem(S['C'], 'v'), inst(
+            I, 'ComplexEmbedding', S['R'], sym_scalar('s', True))))
+    B['expr:ComplexEmbedding[R] * real vector'] = (
+        lambda I, S: I.binop(ast.Mult, inst(
+            I, 'ComplexEmbedding', S['R'], sym_scalar('s', True)),
+            sym_elem(S['R'], 'v')))
+    B['expr:real vector * RealPart[C]'] = (
+        lambda I, S: I.binop(ast.Mult, sym_elem(S['R'], 'v'), inst(
+            I, 'RealPart', S['C'])))
+    B['expr:RealPart[C] * complex vector'] = (
+        lambda I, S: I.binop(ast.Mult, inst(I, 'RealPart', S['C']),
+                             sym_elem(S['C'], 'v')))
+    B['expr:complex vector * MultiplyOperator[C]'] = (
+        lambda I, S: I.binop(ast.Mult, sym_elem(S['C'], 'v'), inst(
+            I, 'MultiplyOperator', sym_elem(S['C'], 'm'))))
+    B['expr:(a+bj) * MultiplyOperator[C] * (c+dj)'] = (
+        lambda I, S: I.binop(ast.Mult, I.binop(
+            ast.Mult, sym_scalar('a', True), inst(
+                I, 'MultiplyOperator', sym_elem(S['C'], 'm'))),
+            sym_scalar('c', True)))
+    B['expr:vector * FlatteningOperator[discretized]'] = (
+        lambda I, S: I.binop(ast.Mult, sym_elem(NSpace((6,), 'float64'),
+                                                'v'), inst(
+            I, 'FlatteningOperator', sp((2, 3), w='w', cv='w'))))
+    B['expr:s * FlatteningOperator[discretized]'] = (
+        lambda I, S: I.binop(ast.Mult, Rat.var('s'), inst(
+            I, 'FlatteningOperator', sp((2, 3), w='w', cv='w'))))
+    B['expr:FlatteningOperator.inverse * vector'] = (
+        lambda I, S: I.binop(ast.Mult, I.getattr_value(inst(
+            I, 'FlatteningOperator', sp((2, 3), w='w', cv='w')), 'inverse'),
+            sym_elem(NSpace((6,), 'float64'), 'v')))
     B['expr:MultiplyOperator o ComplexEmbedding[R]'] = (
         lambda I, S: I.binop(ast.Mult, inst(
             I, 'MultiplyOperator', sym_elem(S['C'], 'm')), inst(
@@ -401,6 +439,10 @@ def run(rep, model):
             rep.violation('R8', cons, 'raises %s at `%s`' % (
                 e.name, ast.unparse(e.node)[:70] if e.node is not None
                 else '?'), DOPS, getattr(e.node, 'lineno', None))
+            continue
+        except NotAnElement as e:
+            rep.violation('R8', cons, 'a call yields no element: %s' % e,
+                          DOPS)
             continue
         if r['outcome'] != 'value':
             nd = r.get('node')
